@@ -22,7 +22,20 @@ Inv_PerPath    == C16_PerPath(s)
 Inv_FIFO       == C16_FIFO(s)
 Inv_IdleAtEnd  == C16_IdleAtEnd(s)
 Inv_NoLostSlot == C16_NoLostSlot(s)
+\* directed histories: all requests arrive (in every order), then each is finished in that order - with an endpoint limit
+\* of 1 the waiters must be admitted one by one in arrival order; the model predicts the observable state after each step
+EA(x, r) == [a |-> x, r |-> r, c |-> 0]
+RECURSIVE Predict(_, _, _)
+Predict(acts, k, SS) == IF k > Len(acts) THEN <<>>
+                        ELSE LET Q0 == UNION {UNION {Quiesce(u) : u \in EnvApply(st, acts[k])} : st \in SS}
+                                 Q == IF Q0 = {} THEN SS ELSE Q0
+                                 P == {Proj(x) : x \in Q} IN
+                             <<[act |-> acts[k], exp |-> CHOOSE x \in P : TRUE, alts |-> Cardinality(P), exps |-> SetToSeq(P)]>> \o Predict(acts, k + 1, Q)
+Perms == {f \in [1..Cardinality(Reqs) -> Reqs] : \A a, b \in 1..Cardinality(Reqs) : a # b => f[a] # f[b]}
+DirectedActs == {[k \in 1..(2 * Cardinality(Reqs)) |-> IF k <= Cardinality(Reqs) THEN EA("arrive", f[k]) ELSE EA("finish", f[k - Cardinality(Reqs)])] : f \in Perms}
+ASSUME Walks = 0 \/ JsonSerialize("directed.json", SetToSeq({Predict(q, 1, {S0}) : q \in DirectedActs}))
 Emit == (Walks > 0 /\ (Len(hist) = MaxEvents \/ Enabled = {})) => PrintT(<<"HIST", ToJson(hist)>>)
 QPath == [r \in 1..4 |-> IF r = 3 THEN 2 ELSE 1]
+QPath1 == [r \in 1..4 |-> 1]          \* one path: up to three waiters behind the request in flight
 QPath5 == [r \in 1..5 |-> IF r \in {2, 5} THEN 2 ELSE 1]
 =============================================================================
